@@ -866,7 +866,9 @@ func c05CellProbes(id s2.CellID) []s2.CellID {
 func c05RectSeeds(rect s2.Rect) []s2.Point {
 	var out []s2.Point
 	dl := math.Max(rect.Lat.Length(), 1e-9) * 1e-3
-	for _, la := range []float64{rect.Lat.Lo - dl, rect.Lat.Lo, rect.Lat.Lo + dl, (rect.Lat.Lo + rect.Lat.Hi) / 2, rect.Lat.Hi - dl, rect.Lat.Hi, rect.Lat.Hi + dl} {
+	h := rect.Lat.Length()
+	for _, la := range []float64{rect.Lat.Lo - dl, rect.Lat.Lo, rect.Lat.Lo + dl, rect.Lat.Lo + 0.13*h, rect.Lat.Lo + 0.31*h, (rect.Lat.Lo + rect.Lat.Hi) / 2,
+		rect.Lat.Lo + 0.69*h, rect.Lat.Lo + 0.87*h, rect.Lat.Hi - dl, rect.Lat.Hi, rect.Lat.Hi + dl} {
 		if la < -math.Pi/2 || la > math.Pi/2 {
 			continue
 		}
@@ -918,7 +920,13 @@ func opC05Region(raw json.RawMessage, o *Out) {
 		ctr = s2.Point{Vector: p.Mul(-1)}
 	case "rect":
 		ll := s2.LatLngFromPoint(p)
-		rect := s2.RectFromCenterSize(ll, s2.LatLng{Lat: s1.Angle(math.Min(1.4*r, math.Pi)), Lng: s1.Angle(math.Min(2.6*r, 2*math.Pi))})
+		// even sizes: wider than tall; odd sizes: a thin north-south strip
+		latSize, lngSize := 1.4*r, 2.6*r
+		if c.Size%2 == 1 {
+			latSize, lngSize = 6*r, 0.2*r
+			extent = 3 * r
+		}
+		rect := s2.RectFromCenterSize(ll, s2.LatLng{Lat: s1.Angle(math.Min(latSize, math.Pi)), Lng: s1.Angle(math.Min(lngSize, 2*math.Pi))})
 		region = rect
 		seeds = append(seeds, c05RectSeeds(rect)...)
 	case "latlng":
